@@ -127,6 +127,7 @@ PROTOS = ['Chunk()', 'Chunk(length=0)', "Chunk(payload=b'')", "Chunk(length=0, p
           'Mid()', 'Mid(c=Chunk(length=0))', 'Mid(f=Flags(on=True))', "Mid(h=1, c=Chunk(length=2, payload=b'ab'))"]
 PLACEMENTS = {
     'ref': (['pre = Int(1)', 's = Ref(%s)'], 'p.s', lambda plain, enc: b'\x00' + enc),
+    'shorthand': (['pre = Int(1)', 's = %s'], 'p.s', lambda plain, enc: b'\x00' + enc),      # a packet instance written as the field itself
     'ref-last-of-two': (['s0 = Ref(%s)', 's = Ref(%s)'], 'p.s', lambda plain, enc: plain + enc),
     'list-default': (['n = Int(1)', 's = Ref(%s).repeated(n, default=[%s])'], 'p.s[0]', lambda plain, enc: b'\x00' + enc),
     'optional-default': (['t = Int(1)', 's = Ref(%s).when(t, default=%s)'], 'p.s', lambda plain, enc: b'\x00' + enc),
